@@ -26,6 +26,10 @@ ELLS = {
     'ns_1e9': gc.Ellipsoid(6371000.0, 1.0e9), 'sphere': gc.Ellipsoid(6371000.0, float('inf')),
 }
 TWINS = ['grs80_a3mm', 'grs80_f2e7', 'ans_a5mm', 'wgs84_f3e7']
+import decimal as _decimal
+# an ellipsoid DEFINED with an integer axis and a decimal.Decimal inverse flattening (as the stand-alone script holds its constants)
+ELLS['intl24_dec'] = gc.Ellipsoid(6378388, _decimal.Decimal('297'))
+ELLS['wgs84_dec'] = gc.Ellipsoid(6378137, _decimal.Decimal('298.257223563'))
 NEAR_SPHERES = ['ns_1e3', 'ns_2e4', 'ns_1e6', 'ns_1e9', 'sphere']
 ELL_AF = {k: (float(v.semimaj), float(v.inversef)) for k, v in ELLS.items()}
 # Published defining values of the shipped ellipsoids (EPSG 7019, 7030, 7003, 7022) and projections (UTM; NSW ISG technical
@@ -109,7 +113,7 @@ ISG_CM = {541: 139.0, 542: 141.0, 543: 143.0, 551: 145.0, 552: 147.0, 553: 149.0
 # (ellipsoid, projection) configurations for the TM properties
 TM_CONFIGS = ([(e, 'utm') for e in E9] + [('ans', 'isg'), ('grs80', 'isg')] +
               [('grs80', 'p0'), ('e64_400', 'p0'), ('grs80', 'p1'), ('e63_150', 'p1'), ('intl24', 'p2'), ('e635_275', 'p2'),
-               ('wgs84', 'p3'), ('ans', 'p4'), ('grs80', 'p5'), ('intl24', 'p6'), ('ans', 'isg2'), ('wgs84', 'p7'), ('grs80', 'p8'), ('grs80_a3mm', 'utm')])
+               ('wgs84', 'p3'), ('ans', 'p4'), ('grs80', 'p5'), ('intl24', 'p6'), ('ans', 'isg2'), ('wgs84', 'p7'), ('grs80', 'p8'), ('grs80_a3mm', 'utm'), ('wgs84_dec', 'utm'), ('intl24_dec', 'p1')])
 
 
 def n_zones(prj):
